@@ -42,7 +42,11 @@ TrScalar ==
           \cup Cl(U!Close(Ev.back, Ev.x, tol), "ThereAndBackReturnsValue"))
 TrRun == /\ Live("Run")
          /\ Note(Cl(Ev.nz = Ev.nzsi /\ Ev.dz <= Ev.tol, "SameMesh")
-                 \cup Cl(Ev.dt <= Ev.ttol, "SameTemperatures"))
+                 \cup Cl(Ev.dt <= Ev.ttol, "SameTemperatures")
+                 \* the summary table prints flow (5 digits), temperature and
+                 \* height (2 decimals) of the SI run in the requested units
+                 \cup Cl(Ev.tabflow <= 60 /\ Ev.tabtemp <= 8 /\ Ev.tablen <= 8,
+                         "ResultsReportedInTheRequestedUnits"))
 TrCrash == Live("Crash") /\ Note({"EveryUnitSystemAccepted"})
 Report == /\ ~done /\ l > Len(T.ev)
           /\ PrintT(<<"VERDICT", tid, IF verdict = {} THEN "accept" ELSE "reject",
